@@ -580,9 +580,22 @@ class List(list, base.Symbolic, pg_typing.CustomTyping):
                               'is set to False. '
                               'Use \'rebind\' method instead.'))
     if isinstance(index, slice):
-      # Delete from the back so that the remaining indices stay valid.
+      # Delete from the back so that the remaining indices stay valid, and
+      # notify once for the whole slice.
+      updates = []
       for i in sorted(range(*self._parse_slice(index)), reverse=True):
-        del self[i]
+        old_value = self.sym_getattr(i)
+        super().__delitem__(i)
+        if isinstance(old_value, base.TopologyAware):
+          old_value.sym_setparent(None)
+        updates.append(
+            base.FieldUpdate(
+                self.sym_path + i, self,
+                self._value_spec.element if self._value_spec else None,
+                old_value, pg_typing.MISSING_VALUE))
+      if flags.is_change_notification_enabled() and updates:
+        updates.reverse()
+        self._notify_field_updates(updates)
       return
 
     if not isinstance(index, numbers.Integral):
